@@ -150,6 +150,17 @@ def compute_cst_propagation_states(lifter, ircfg, init_addr, init_infos):
         addr = symbexec_engine.run_block_at(ircfg, lbl)
         symbexec_engine.del_mem_above_stack(lifter.sp)
 
+        # Only the constant expressions go to the next blocks: any other
+        # value is written with the registers as they were at the beginning
+        # of this block, and would be read there as the current registers
+        out_state = symbexec_engine.get_state()
+        out_state = out_state.__class__(
+            dict(
+                (dst, src) for dst, src in out_state
+                if is_expr_cst(lifter, src)
+            )
+        )
+
         for dst in possible_values(addr):
             value = dst.value
             if value.is_mem():
@@ -159,7 +170,7 @@ def compute_cst_propagation_states(lifter, ircfg, init_addr, init_infos):
                 value = ircfg.get_loc_key(value)
             add_state(
                 ircfg, todo, states, value,
-                symbexec_engine.get_state()
+                out_state
             )
 
     return states
